@@ -41,13 +41,13 @@ func ErrIdx(err error) string {
 	if err == nil {
 		return "nil-error"
 	}
+	if err == error(fp.ErrOptionEmpty) { // one name, whoever produced it (see FailName)
+		return strconv.Itoa(FailOptionEmpty)
+	}
 	for k := 1; k < len(Errs); k++ {
 		if err == Errs[k] && errors.Is(err, Errs[k]) {
 			return strconv.Itoa(k)
 		}
-	}
-	if err == error(fp.ErrOptionEmpty) {
-		return strconv.Itoa(FailOptionEmpty)
 	}
 	return "?(" + err.Error() + ")"
 }
@@ -206,7 +206,7 @@ func ObsRef[T any](p *Profile, m Ref[T], show func(T) string) string {
 		}
 		v, k, ns := m(s)
 		if k != 0 {
-			b.WriteString("F" + strconv.Itoa(k))
+			b.WriteString("F" + strconv.Itoa(FailName(k)))
 		} else {
 			b.WriteString("ok(" + show(v) + ")")
 		}
@@ -404,6 +404,8 @@ type Cas struct {
 	FailAt int
 	Prog   *Expr
 	Lprog  any
+	NIter  int  // Iterator operands built so far through IterOf (gcpull.go)
+	GCObs  bool // a pull-based operand was built: observers force a collection mid-consumption
 }
 
 func (c *Cas) Site(s string) { c.W.Site(s) }
@@ -583,6 +585,10 @@ func RunCheck(w *vrt.W, i int, p *Profile, ck Check, rot int) {
 		c.FailAt = r.IntN(9)
 	}
 	Cur = c
+	if fl := SetErrFlavour(rot); p.Nfail > 1 && p != ProfEither {
+		c.Note("failure values Errs[1..4]: %s", fl)
+		w.Add("errors.flavour."+fl+"."+p.Pkg, 1)
+	}
 	w.Begin(i, ck.Name)
 	w.Guard(i, c.Witness, func() { ck.Run(c) })
 	w.Done(i)
